@@ -43,7 +43,10 @@ func allSubQueries(sqlText string) []*sql.SubQuery {
 func inListOf(o Outcome, dim string) []string {
 	seen := map[string]bool{}
 	for _, r := range o.Rows {
-		seen[dimText(r.Dims[dim])] = true
+		// since /repo 4ea8e1b a sub-query row that lacks the dimension contributes no value
+		if v, ok := r.Dims[dim]; ok && v != nil {
+			seen[dimText(v)] = true
+		}
 	}
 	out := make([]string, 0, len(seen))
 	for k := range seen {
@@ -221,4 +224,84 @@ func (e *run) leftoverSubQueryCalls(calls []clusterCall, used []bool, caseJSON m
 			return
 		}
 	}
+}
+
+// ---------------------------------------------------------------- shipped results
+
+// shippedCheck checks the sub-query protocol between leader and partitions on every
+// QueryCluster call: the statement must come with exactly one result list per IN-subquery of
+// its WHERE (query.WhereSubQueries order), each equal to the IN list of that sub-query (the
+// local plan's: what the leader has to resolve), and no partition may run more than one table
+// scan for it (a second scan is a partition planning and running an IN-subquery itself,
+// against its own rows).  Compared with the model's `partitionLists` contract (op "shipped").
+func (e *run) shippedCheck(c Case, w *world, calls []clusterCall, caseJSON map[string]interface{}, idx uint64, propertyFailed bool) error {
+	cache := map[string][]string{}
+	for _, cl := range calls {
+		stmt, err := sql.Parse(cl.SQL)
+		if err != nil {
+			continue
+		}
+		subs := stmt.WhereSubQueries
+		for _, n := range cl.PartScans {
+			if n > 1 {
+				e.hit("shipped:partition-ran-sub-queries-itself")
+				if !propertyFailed {
+					e.disagree("sub-query protocol: a partition ran more than one table scan for the statement it was sent (it planned and ran IN-subqueries on its own rows instead of using shipped results)",
+						caseJSON, map[string]interface{}{"call": cl}, map[string]interface{}{"partition_table_scans": 1}, idx)
+				}
+				break
+			}
+		}
+		if len(subs) == 0 {
+			continue
+		}
+		e.hit(fmt.Sprintf("shipped:statement-with-%d-in-subqueries", len(subs)))
+		leader := [][]string{}
+		ok := true
+		for _, sq := range subs {
+			k := sq.SQL + "|" + sq.Dim
+			l, have := cache[k]
+			if !have {
+				o := w.execLocalAs(sq.SQL, true)
+				if o.Err != "" {
+					ok = false
+					break
+				}
+				l = inListOf(o, sq.Dim)
+				cache[k] = l
+			}
+			leader = append(leader, l)
+		}
+		if !ok {
+			e.hit("shipped:skip-sub-query-error")
+			continue
+		}
+		var shipped interface{}
+		if cl.Shipped {
+			shipped = cl.Results
+		}
+		req := map[string]interface{}{"engine": "plan", "op": "shipped", "slots": len(subs), "shipped": shipped, "leader": leader}
+		if e.ctx.Model == nil {
+			continue
+		}
+		var m struct {
+			Accepted   bool `json:"accepted"`
+			Positional bool `json:"positional"`
+		}
+		if err := e.model(req, &m); err != nil {
+			return err
+		}
+		e.hit("shipped:checked")
+		if propertyFailed {
+			continue // the row oracle has the failing input; the IN lists themselves may be wrong
+		}
+		if !m.Accepted {
+			e.disagree(fmt.Sprintf("sub-query protocol: %d result list(s) shipped for a statement with %d IN-subqueries (the partitions fall back to their own data)", len(cl.Results), len(subs)),
+				caseJSON, map[string]interface{}{"call": cl}, map[string]interface{}{"request": req}, idx)
+		} else if !m.Positional {
+			e.disagree("sub-query protocol: a shipped result list is not the IN list of the sub-query at its position",
+				caseJSON, map[string]interface{}{"call": cl}, map[string]interface{}{"request": req}, idx)
+		}
+	}
+	return nil
 }
